@@ -17,6 +17,7 @@ import DtailModel.Model.Base64
 import DtailModel.Model.Auth
 import DtailModel.Model.KnownHosts
 import DtailModel.Model.Perm
+import DtailModel.Model.Aggregate
 open Dtail
 
 structure Res where
@@ -518,6 +519,61 @@ def opC08Cat : List String → Res
     | none => bad
   | _ => bad
 
+/-! C05 -/
+
+def AMP : UInt8 := 38
+
+def parseAbstractLine (b : Bytes) : Fields :=
+  if b.isEmpty then [] else
+  (splitOnByte AMP b).filterMap fun e => match splitN EQ 2 e with
+    | [k, v] => some (k, v)
+    | _ => none
+
+/-- last binding wins, as in a Go map -/
+def dedupFields (fs : Fields) : Fields :=
+  fs.foldl (fun acc (k, v) => acc.filter (·.1 ≠ k) ++ [(k, v)]) []
+
+def parseServers (s : String) : Option (List (List (List Fields))) :=
+  if s = "-" then some [] else
+  (s.splitOn "/").mapM fun sv => (sv.splitOn ";").mapM fun iv =>
+    if iv = "" ∨ iv = "-" then some [] else (iv.splitOn ",").mapM fun l => (unhex l).map (dedupFields ∘ parseAbstractLine)
+
+def intOracle : FloatOracle := fun t => (atoi t).map (fun n => str (toString n))
+
+def dumpGroups (g : Groups) : String :=
+  if g.isEmpty then "empty" else
+  let sorted := (g.toArray.qsort (fun a b => compare a.1 b.1 == .lt)).toList
+  joinWith " " (sorted.map fun (k, s) =>
+    let cols := s.cols.map fun c => s!"{c.num.getD 0}|{hexOf (c.str.getD [])}"
+    s!"{hexOf k}:{s.samples}:{joinWith "," cols}")
+
+def opC05Agg : List String → Res
+  | [qh, format, servers] => match unhex qh, parseServers servers with
+    | some qs, some svs =>
+      match newQuery intOracle qs with
+      | .ok (some q) =>
+        let header := sortBytes ((svs.flatten.flatten.flatMap (·.map (·.1))).eraseDups)
+        let prep (fs : Fields) : Option Fields :=
+          -- the log format decides which fields a line has
+          let fs := if format = "csv" then header.map (fun h => (h, (getField fs h).getD [])) else fs
+          if format = "default" ∧ fs.isEmpty then none          -- fewer than 11 '|' parts: ignored
+          else
+            let fs := fs ++ [(b!"*", b!"*"), (b!"$empty", [])]
+            if whereClause q.whr fs then some (setClause q.set fs) else none
+        let partials := svs.flatten.map (·.filterMap prep)
+        let d := distributed q.sel q.groupBy partials
+        let c := central q.sel q.groupBy partials.flatten
+        let ops := (q.sel.map (·.op)).eraseDups
+        { m := dumpGroups d, s := dumpGroups c,
+          t := joinWith "," ((if partials.length > 1 then ["multi-part"] else []) ++ (if d.length > 1 then ["multi-group"] else [])
+            ++ (if !q.whr.isEmpty then ["where"] else []) ++ (if !q.set.isEmpty then ["set"] else [])
+            ++ (if ops.contains .min ∨ ops.contains .max then ["minmax"] else []) ++ (if ops.contains .avg then ["avg"] else [])
+            ++ (if ops.contains .last ∨ ops.contains .len then ["lastlen"] else [])
+            ++ (if partials.any (·.isEmpty) then ["empty-part"] else [])) }
+      | _ => { m := "query-error" }
+    | _, _ => bad
+  | _ => bad
+
 def dispatch (line : String) : Res :=
   match (line.splitOn " ").filter (· ≠ "") with
   | "c01.reader" :: a => opC01Reader a
@@ -525,6 +581,7 @@ def dispatch (line : String) : Res :=
   | "c01.e2e" :: a => opC01E2E a
   | "c03.grep" :: a => opC03Grep a
   | "c03.e2e" :: a => opC03E2E a
+  | "c05.agg" :: a => opC05Agg a
   | "c08.perm" :: a => opC08Perm a
   | "c08.cat" :: a => opC08Cat a
   | "c09.keys" :: a => opC09Keys a
